@@ -233,14 +233,22 @@ CLAIMS = {
         technique="static analysis: abstract evaluation + canonical-form comparison of the generated constraint schema against a reference schema (ast)",
         ref="DESIGN.md §3 C04",
     ),
+    "C09": dict(
+        text=(
+            "Decides C09 relative to a reference schema (the design first declined this property; the schema-comparison engine "
+            "built for C04 applies to it): active_edges_acyclic is evaluated abstractly on eight small multigraphs incl. parallel "
+            "edges; the canonicalised constraint set must equal the reference (every vertex has at most one active edge to a "
+            "strictly lower-ranked neighbour; adjacent ranks pairwise distinct; at least n rank values). A deviation is triaged by "
+            "enumerating its projection onto the edge flags against the forests of the same graph: a wrongly admitted/rejected edge "
+            "set is reported as VIOLATION with that witness, otherwise undecided (exit 2)."
+        ),
+        note="Trusted: exactness of the reference schema (DESIGN.md C09) and uniformity of the encoding in the graph; the abstract evaluator.",
+        technique="static analysis: abstract evaluation + canonical-form comparison of the generated constraint schema against a reference schema (ast)",
+        ref="DESIGN.md §3 C09",
+    ),
 }
 
 NOT_APPLICABLE = {
-    "C09": (
-        "value-level biconditional about existence of a rank assignment for every forest; no pairing/ownership/table "
-        "clause is visible in the code's shape, and pinning the rank range or side condition would be a frozen fragment "
-        "(DESIGN.md §3 C09)"
-    ),
 }
 
 NOT_BUILT = "static rules designed in DESIGN.md §3 but not built yet; not claimed on the strength of the design"
